@@ -546,7 +546,7 @@ def boundary_configs(tier):
         ('WENX', {'W': '0+', 'E': '+0', 'N': '+0', 'X': '0+'}),
     ]
     if tier == 'thorough':
-        fam += [('WEM', {'W': '0+', 'E': '+0', 'M': '++'}), ('WE', {'W': '??', 'E': '??'}), ('WEN', {'W': '++', 'E': '++', 'N': '?+'}),
+        fam += [('WEM', {'W': '0+', 'E': '+0', 'M': '++'}), ('WE', {'W': '+?', 'E': '?+'}), ('WEN', {'W': '++', 'E': '++', 'N': '?+'}),
                 ('WEX', {'W': '++', 'E': '++', 'X': '?+'})]
     return [{'name': f'{keys}/{_dist_name(d, keys)}', 'pkg': keys, 'dist': d} for keys, d in fam]
 
@@ -751,7 +751,7 @@ def corr_configs(var):
         if tier == 'thorough':
             fam += [('WE', {'W': '0+', 'E': '+0'}, 0, 'interior'), ('WE', {'W': '0+', 'E': '+0'}, 1, 'interior'),
                     ('WEN', {'W': '0+', 'E': '0+', 'N': '+0'}, 0, 'interior'), ('WEX', {'W': '+0', 'E': '0+', 'X': '0+'}, 0, 'interior'),
-                    ('WE', {'W': '03', 'E': '50'}, 1, 'box'), ('WEM', {'W': '03', 'E': '50', 'M': '22'}, 1, 'interior'),
+                    ('WEM', {'W': '03', 'E': '50', 'M': '22'}, 1, 'interior'),
                     ('WENX', {'W': '03', 'E': '50', 'N': '10', 'X': '01'}, 1, 'interior')]
         return [{'name': f'{keys}/{_dist_name(d, keys)}/k={k}/v={v}', 'pkg': keys, 'dist': d, 'k': k, 'v': v} for keys, d, k, v in fam]
     return configs
